@@ -208,32 +208,34 @@ func Harness_C13_IncludeChain(format int) {
 	if hasBd {
 		wantBd = 9
 	}
-	check := func(b *vt.Base3, who string) {
-		verif.Assert(b.Bd != nil && *b.Bd == wantBd, who+": int default declared two includes away is missing or overrode a supplied value")
-		verif.Assert(b.Bs != nil && len(*b.Bs) == 1 && (*b.Bs)[0] == "x", who+": array default declared two includes away is missing")
+	// The inherited fields are reached through promoted selectors (v.Bd): the
+	// two generators lay the embedded records out differently.
+	check := func(bd *int32, bs *[]string, who string) {
+		verif.Assert(bd != nil && *bd == wantBd, who+": int default declared two includes away is missing or overrode a supplied value")
+		verif.Assert(bs != nil && len(*bs) == 1 && (*bs)[0] == "x", who+": array default declared two includes away is missing")
 	}
 	switch verif.Choose(4) {
 	case 0:
 		v := new(vt.Base3)
 		verif.Assert(v.UnmarshalRestLi(c13Reader(format, doc)) == nil, "decode Base3")
-		check(v, "Base3")
+		check(v.Bd, v.Bs, "Base3")
 	case 1:
 		v := new(vt.Mid3)
 		verif.Assert(v.UnmarshalRestLi(c13Reader(format, doc)) == nil, "decode Mid3")
-		check(&v.Base3, "Mid3")
+		check(v.Bd, v.Bs, "Mid3")
 	case 2:
 		v := new(vt.Top3)
 		verif.Assert(v.UnmarshalRestLi(c13Reader(format, doc)) == nil, "decode Top3")
-		check(&v.Mid3.Base3, "Top3")
+		check(v.Bd, v.Bs, "Top3")
 		verif.Assert(v.Own != nil && *v.Own == "o", "Top3: own default missing")
 	default:
 		v := new(vt.Plain3)
 		verif.Assert(v.UnmarshalRestLi(c13Reader(format, doc)) == nil, "decode Plain3")
-		check(&v.Mid3.Base3, "Plain3")
+		check(v.Bd, v.Bs, "Plain3")
 	}
 	if !hasBd {
 		t := vt.NewTop3WithDefaultValues()
-		check(&t.Mid3.Base3, "NewTop3WithDefaultValues")
+		check(t.Bd, t.Bs, "NewTop3WithDefaultValues")
 		// (only constructors of records with a default of their own are used:
 		// whether the others exist is the generator's choice, and a harness
 		// that does not compile decides nothing)
